@@ -604,4 +604,29 @@ theorem overlap_denominators_pos (k : ℕ) (hr0 : ∀ i, 0 ≤ at' m.r i)
   exact ⟨trapzA_pos Y m.r (m.ix + 1) (by omega) hy hy1 (fun i hi => hmono i (by omega)) h01,
          trapzA_pos Y m.r m.r.size hsz hy hy1 hmono h01⟩
 
+/-- **mean beam energy and energy spread**: the space-charge corrected energy is `E + ⟨φ⟩`, `⟨φ⟩ = (2/r_e²) ∫₀^{r_e} φ r dr` the beam-area
+average of the potential (trapezoid rule up to the beam-edge node); the spread is the device's value when `OVERRIDE_FWHM` is set and otherwise
+`2.355 · sqrt(⟨(φ − ⟨φ⟩)²⟩)`, the FWHM of a Gaussian with the variance of the potential over the beam area -/
+theorem beam_energy_and_spread :
+    (stage m y).e_kin = m.e_kin + 2 * trapzA (Array.ofFn (n := m.r.size) fun g => at' m.r g.val * at' (stage m y).phi g.val) m.r (m.ix + 1) / m.r_e ^ 2 ∧
+    (stage m y).fwhm = (if m.opts.OVERRIDE_FWHM then m.fwhm else
+      2.355 * Real.sqrt (2 * trapzA (Array.ofFn (n := m.r.size) fun g =>
+        at' m.r g.val * (at' (stage m y).phi g.val - ((stage m y).e_kin - m.e_kin)) ^ 2) m.r (m.ix + 1) / m.r_e ^ 2)) := by
+  have e1 : (stage m y).e_kin = m.e_kin + lit 2 * trapzA (Array.ofFn (n := m.r.size) fun g => at' m.r g.val * at' (stage m y).phi g.val) m.r (m.ix + 1) / powN m.r_e 2 := rfl
+  have e2 : (stage m y).fwhm = (if m.opts.OVERRIDE_FWHM then m.fwhm else
+      (2.355 : ℝ) * Transc.sqrt (lit 2 * trapzA (Array.ofFn (n := m.r.size) fun g =>
+        at' m.r g.val * powN (at' (stage m y).phi g.val - (lit 2 * trapzA (Array.ofFn (n := m.r.size) fun g => at' m.r g.val * at' (stage m y).phi g.val) m.r (m.ix + 1) / powN m.r_e 2)) 2) m.r (m.ix + 1) / powN m.r_e 2)) := rfl
+  refine ⟨by rw [e1]; simp, ?_⟩
+  rw [e2, e1]
+  simp only [lit_real, powN_real, Transc.sqrt_real, Nat.cast_ofNat, add_sub_cancel_left]
+
+/-- the variance under the square root is never negative on a non-negative, non-decreasing grid: the computed spread is a real number ≥ 0 -/
+theorem spread_variance_nonneg (c : ℝ) (hr0 : ∀ i, 0 ≤ at' m.r i) (hmono : ∀ i, i + 1 < m.ix + 1 → at' m.r i ≤ at' m.r (i + 1)) :
+    0 ≤ trapzA (Array.ofFn (n := m.r.size) fun g => at' m.r g.val * (at' (stage m y).phi g.val - c) ^ 2) m.r (m.ix + 1) := by
+  refine (trapzA_mono _ m.r (m.ix + 1) (m.ix + 1) le_rfl ?_ hmono).1
+  intro i
+  by_cases h : i < m.r.size
+  · rw [at'_ofFn _ i h]; exact mul_nonneg (hr0 i) (sq_nonneg _)
+  · rw [at'_ofFn_ge _ i (by omega)]
+
 end C05
